@@ -1,10 +1,13 @@
 package c11
 
 import (
+	"fmt"
 	"regexp"
 	"runtime"
 	"sort"
 	"strings"
+
+	"Havoc/cmd/server"
 )
 
 // ---------------------------------------------------------------------------------
@@ -39,16 +42,19 @@ func allStacks() string {
 	}
 }
 
-func analyseDump() dumpInfo {
+// analyseDump looks only at goroutines working for the given teamserver (earlier worlds of
+// this process may have left blocked goroutines behind; they are not this scenario's).
+func analyseDump(ts *server.Teamserver) dumpInfo {
 	raw := allStacks()
 	var d dumpInfo
 	d.Raw = raw
+	mine := fmt.Sprintf("Havoc/cmd/server.(*Teamserver).SendEvent(%p", ts)
 	for _, blk := range strings.Split(raw, "\n\n") {
 		m := reGHead.FindStringSubmatch(blk)
 		if m == nil {
 			continue
 		}
-		if !strings.Contains(blk, "Havoc/cmd/server.(*Teamserver).SendEvent(") {
+		if !strings.Contains(blk, mine) {
 			continue
 		}
 		g := gInfo{ID: m[1], State: m[2], Text: blk}
@@ -88,15 +94,19 @@ func ids(gs []gInfo) []string {
 // trimmed returns the stacks that matter for a witness (bounded size).
 func (d dumpInfo) trimmed() []string {
 	var out []string
-	for _, g := range append(append([]gInfo{}, d.Waiters...), d.Holders...) {
-		t := g.Text
-		if len(t) > 2500 {
-			t = t[:2500] + "…"
-		}
-		out = append(out, t)
-		if len(out) >= 6 {
-			break
+	add := func(gs []gInfo, n int) {
+		for i, g := range gs {
+			if i >= n {
+				break
+			}
+			t := g.Text
+			if len(t) > 2500 {
+				t = t[:2500] + "…"
+			}
+			out = append(out, t)
 		}
 	}
+	add(d.Holders, 2)
+	add(d.Waiters, 3)
 	return out
 }
